@@ -5,13 +5,16 @@ VERIF_REPO (no file of /repo is touched); evidence and replays go to scratch dir
 usage: tools/reeval_seeded.py [ID ...]   (default: all)"""
 import glob, json, os, re, subprocess, sys
 V = os.path.dirname(os.path.dirname(os.path.abspath(__file__)))
-WT = "/tmp/mut3"
+WT = os.environ.get("REEVAL_WT", "/tmp/mut3")
 ids = sys.argv[1:] or sorted(os.path.basename(d) for d in glob.glob(os.path.join(V, "seeded", "*")))
-env = {**os.environ, "VERIF_REPO": WT, "VERIF_EVIDENCE_DIR": "/var/tmp/vfw_re_ev", "VERIF_REPLAY_DIR": "/var/tmp/vfw_re_rp"}
+env = {**os.environ, "VERIF_REPO": WT, "VERIF_EVIDENCE_DIR": "/var/tmp/vfw_re_ev" + WT.replace("/", "_"),
+       "VERIF_REPLAY_DIR": "/var/tmp/vfw_re_rp" + WT.replace("/", "_")}
 for sid in ids:
     d = os.path.join(V, "seeded", sid)
     meta = json.load(open(os.path.join(d, "meta.json")))
-    subprocess.run(f"git -C {WT} checkout -q -- . && git -C {WT} apply {d}/patch.diff", shell=True, check=True)
+    head = subprocess.run("git -C /repo rev-parse HEAD", shell=True, capture_output=True, text=True).stdout.strip()
+    subprocess.run(f"git -C {WT} checkout -q -- . && git -C {WT} checkout -q --detach {head} && git -C {WT} apply {d}/patch.diff",
+                   shell=True, check=True)
     try:
         for c in list(meta["checks"]):
             outcome, keys = [], []
@@ -24,10 +27,10 @@ for sid in ids:
                     outcome.append("silent" if r.returncode == 0 else f"exit{r.returncode}")
             meta["checks"][c] = {"fired": "FIRED" in outcome, "outcome": outcome, "keys": keys[:6]}
         meta["caught_by"] = [c for c, v in meta["checks"].items() if v["fired"]]
-        meta["reevaluated"] = "checks re-run after strengthening, change applied in scratch worktree /tmp/mut3 (VERIF_REPO), seeds 0,1"
+        meta["reevaluated"] = "checks re-run after strengthening, change applied in a scratch worktree (VERIF_REPO), seeds 0,1"
         json.dump(meta, open(os.path.join(d, "meta.json"), "w"), indent=1)
         print(sid, "caught_by", meta["caught_by"], {c: v["outcome"] for c, v in meta["checks"].items()}, flush=True)
     finally:
         subprocess.run(f"git -C {WT} checkout -q -- .", shell=True)
-subprocess.run("rm -rf /var/tmp/vfw_re_ev /var/tmp/vfw_re_rp", shell=True)
+subprocess.run(f"rm -rf {env['VERIF_EVIDENCE_DIR']} {env['VERIF_REPLAY_DIR']}", shell=True)
 print("REEVAL_DONE")
